@@ -41,8 +41,11 @@ def scratch(prefix="run"):
     return tempfile.mkdtemp(prefix=f"{prefix}-{os.getpid()}-", dir=OUT)
 
 
-def _java_cmd(args, heap="6g"):
-    return ["java", "-XX:+UseParallelGC", "-XX:ParallelGCThreads=4", "-Xss256m", f"-Xmx{heap}", "-cp", JAR_CP, "tlc2.TLC", *args]
+def _java_cmd(args, heap="6g", tmpdir=None):
+    # java.io.tmpdir inside the run's scratch directory: TLC / SANY unpack their standard modules into a fresh temporary
+    # directory per run, and nothing of a check is to stay behind under /tmp
+    tmp = [f"-Djava.io.tmpdir={tmpdir}"] if tmpdir else []
+    return ["java", "-XX:+UseParallelGC", "-XX:ParallelGCThreads=4", "-Xss256m", f"-Xmx{heap}", *tmp, "-cp", JAR_CP, "tlc2.TLC", *args]
 
 
 def run_tlc(module, cfg, *, workers=16, timeout=600, env=None, dump=None, coverage=False, extra=(), cwd=SPEC, heap="6g",
@@ -67,7 +70,7 @@ def run_tlc(module, cfg, *, workers=16, timeout=600, env=None, dump=None, covera
         e.update(env)
     t0 = time.time()
     try:
-        p = subprocess.run(_java_cmd(args, heap), cwd=cwd, env=e, stdout=subprocess.PIPE, stderr=subprocess.STDOUT,
+        p = subprocess.run(_java_cmd(args, heap, tmpdir=md), cwd=cwd, env=e, stdout=subprocess.PIPE, stderr=subprocess.STDOUT,
                            timeout=timeout, text=True, errors="replace")
     except subprocess.TimeoutExpired as ex:
         shutil.rmtree(md, ignore_errors=True)
